@@ -360,15 +360,27 @@ Proof.
     apply in_map_iff in Hoi. destruct Hoi as (j & <- & _). cbn. split; apply pin_label_ok.
 Qed.
 
-Theorem abs_state_wf s n : Inv s -> abs_state s = Ok n -> wf_nv n.
+Lemma final_top_declared doc s t0 : Inv s -> final_top doc s = Ok (Some t0) ->
+  exists k, (k < length (st_defs s))%nat /\ t0 = ed_name (get_def k s).
+Proof.
+  intros I Ht. unfold final_top in Ht.
+  assert (P : parsed_top s = Ok (Some t0) -> exists k, (k < length (st_defs s))%nat /\ t0 = ed_name (get_def k s)).
+  { clear Ht. intro Ht. unfold parsed_top in Ht. destruct (st_tops s) as [[|t1 r]|] eqn:T; try discriminate.
+    destruct (forallb _ r); [|discriminate]. inversion Ht; subst. exists t1. split; [|reflexivity].
+    apply (iv_tops s I (t1 :: r) t1 T). left. reflexivity. }
+  destruct (root_defs doc s) as [|k [|k2 l]] eqn:R; try (apply P; exact Ht).
+  inversion Ht; subst. exists k. split; [|reflexivity].
+  assert (Hk : In k (root_defs doc s)) by (rewrite R; left; reflexivity).
+  unfold root_defs in Hk. apply filter_In in Hk. destruct Hk as [Hk _]. apply in_seq in Hk. lia.
+Qed.
+
+Theorem abs_state_wf doc s n : Inv s -> abs_state doc s = Ok n -> wf_nv n.
 Proof.
   intros I H. unfold abs_state in H. apply bind_ok in H. destruct H as (t & Ht & H). inversion H; subst. clear H.
   split; [|split].
   - cbn. rewrite map_map. cbn. apply (iv_names s I).
-  - cbn. intros t0 E. subst t. unfold final_top in Ht. destruct (st_tops s) as [[|t1 r]|] eqn:T; try discriminate.
-    destruct (forallb _ r); [|discriminate]. inversion Ht; subst.
-    exists (abs_def s (get_def t1 s)). split; [|reflexivity]. apply in_map. apply get_def_in.
-    apply (iv_tops s I (t1 :: r) t1 T). left. reflexivity.
+  - cbn. intros t0 E. subst t. destruct (final_top_declared doc s t0 I Ht) as (t1 & Lt & ->).
+    exists (abs_def s (get_def t1 s)). split; [|reflexivity]. apply in_map. apply get_def_in. exact Lt.
   - cbn. intros d Hd. apply in_map_iff in Hd. destruct Hd as (d0 & <- & Hd0). apply abs_def_wf; [exact I|reflexivity|exact Hd0].
 Qed.
 
